@@ -148,6 +148,25 @@ def run(ctx, report):
                     report.check("JSON", "Deserialize/owned", owned, "the JSON string is deserialised into an owned (or Cow) string, so every deserializer and escaped input is accepted",
                                  "the JSON string is deserialised as %s: a borrowed &str only deserialises from input the deserializer can lend out (fails for from_value, from_reader and strings with escapes)" % st.get("s"),
                                  fn=x.path, sp=x.span, config=cfg)
+        if not ok:
+            # `match Self::from_str(&text) { Ok(enr) => Ok(enr), Err(m) => Err(D::Error::custom(m)) }`: from_str's result up to
+            # error conversion, on the deserialised string
+            from kernel import result_passthrough
+
+            def is_src(c):
+                if not (c.k == "call" and c.a[0].name == "from_str" and c.a[1]):
+                    return False
+                p_ = ok_payload(strip(c.a[1][0]))
+                return p_ is not None and strip(p_).k == "call" and strip(p_).a[0].name == "deserialize"
+            rets = [r for r in ret_exprs(an) if not (strip(r[2]).k == "call" and strip(r[2]).a[0].name == "from_residual")]
+            n_tied, probs = result_passthrough(an, rets, is_src)
+            if n_tied >= 1 and not probs:
+                ok = True
+                src = [c for r in rets for c in strip(r[2]).walk() if is_src(c)]
+                st = strip(ok_payload(strip(src[0].a[1][0]))).a[0].self_ty or {} if src else {}
+                owned = st.get("s") in ("std::string::String", "std::borrow::Cow<'_, str>", "std::boxed::Box<str>") or (st.get("adt") in ("std::string::String", "std::borrow::Cow", "std::boxed::Box"))
+                report.check("JSON", "Deserialize/owned", owned, "the JSON string is deserialised into an owned (or Cow) string, so every deserializer and escaped input is accepted",
+                             "the JSON string is deserialised as %s: a borrowed &str only deserialises from input the deserializer can lend out" % st.get("s"), fn=x.path, sp=x.span, config=cfg)
         report.check("JSON", "Deserialize", ok, "Deserialize parses the deserialised string, unchanged, with from_str", "Deserialize does not hand the JSON string unchanged to from_str", fn=x.path, sp=x.span, config=cfg)
 
 
